@@ -85,7 +85,7 @@ class GaussianUnknownMean(BaseBOCDModel):
         :type value: float
         :raises ValueError: Value error exception
         """
-        if value <= 0:
+        if not value > 0:
             raise ValueError("data_var must be greater than 0.")
         self._data_var = value
 
